@@ -207,6 +207,236 @@ theorem C19.pinned_cross_pairs :
   revert this
   decide
 
+/-! ## frames, repaired hooks (fix 5a92fce)
+
+`Mode.fixed` above is the agent before the repair: it recorded an answer that found no open frame
+as an orphan frame. The code now (`stepR` / `runR`, what the driver runs) skips such an answer.
+The two agree on every history in which no answer is skipped; a skipped answer changes nothing;
+and a history that begins with answers whose requests the hooks never saw (the open-hook window)
+is, for the frames, the history without them. -/
+
+namespace Uniflow.Agent
+
+theorem upd_self (a : St) (p : Nat) : upd a p (a p) = a := by
+  funext q; by_cases h : q = p <;> simp [upd, h]
+
+/-- A skipped answer leaves the agent as it was. -/
+theorem stepR_orphan (a : St) (e : Ev) (h : orphan a e = true) : stepR a e = a := by
+  cases e with
+  | inb p k pck =>
+    simp only [orphan, Bool.and_eq_true, Option.isNone_iff_eq_none] at h
+    simp only [stepR, inboundR, h.2, h.1, if_true]
+    exact upd_self a p
+  | outb p k pck =>
+    simp only [orphan, Bool.and_eq_true, Option.isNone_iff_eq_none] at h
+    simp only [stepR, outboundR, h.2, h.1, if_true]
+    exact upd_self a p
+  | exit p => simp [orphan] at h
+
+/-- Where no answer is skipped the repaired hooks do what the hooks did before. -/
+theorem stepR_admitted (a : St) (e : Ev) (h : orphan a e = false) : stepR a e = step .fixed a e := by
+  cases e with
+  | inb p k pck =>
+    simp only [orphan, Bool.and_eq_false_iff] at h
+    simp only [stepR, step, inboundR, inbound]
+    cases hf : fillFirst (matchIn .fixed k) (fun f => { f with inPck := some pck }) (a p) with
+    | some fs' => rfl
+    | none =>
+      rcases h with h | h
+      · simp [h]
+      · simp [hf] at h
+  | outb p k pck =>
+    simp only [orphan, Bool.and_eq_false_iff] at h
+    simp only [stepR, step, outboundR, outbound]
+    cases hf : fillFirst (matchOut .fixed k) (fun f => { f with outPck := some pck }) (a p) with
+    | some fs' => rfl
+    | none =>
+      rcases h with h | h
+      · simp [h]
+      · simp [hf] at h
+  | exit p => rfl
+
+theorem runR_admitted (es : List Ev) (a : St) (h : admitted a es = true) : runR a es = run .fixed a es := by
+  induction es generalizing a with
+  | nil => rfl
+  | cons e es ih =>
+    simp only [admitted, Bool.and_eq_true, Bool.not_eq_true'] at h
+    simp only [runR, run]
+    rw [← stepR_admitted a e h.1]
+    exact ih _ h.2
+
+theorem runR_append (xs ys : List Ev) (a : St) : runR a (xs ++ ys) = runR (runR a xs) ys := by
+  induction xs generalizing a with
+  | nil => rfl
+  | cons x xs ih => simp only [List.cons_append, runR]; exact ih _
+
+/-- Answers arriving at an agent that holds no frames are all skipped. -/
+theorem runR_window (pre : List Ev) (h : ∀ e ∈ pre, e.isAnswer = true) : runR St.init pre = St.init := by
+  induction pre with
+  | nil => rfl
+  | cons e pre ih =>
+    simp only [runR]
+    have he := h e (List.mem_cons_self ..)
+    have : orphan St.init e = true := by
+      cases e with
+      | inb p k pck => simpa [orphan, St.init, fillFirst, Ev.isAnswer] using he
+      | outb p k pck => simpa [orphan, St.init, fillFirst, Ev.isAnswer] using he
+      | exit p => simp [Ev.isAnswer] at he
+    rw [stepR_orphan _ _ this]
+    exact ih (fun e' h' => h e' (List.mem_cons_of_mem _ h'))
+
+/-- Every frame holds its request. -/
+def AllReq (fs : List Frame) : Prop := ∀ f ∈ fs, f.request.isSome = true
+
+theorem fillFirst_allReq (c : Frame → Bool) (u : Frame → Frame) (fs fs' : List Frame)
+    (hu : ∀ f, f.request.isSome = true → (u f).request.isSome = true)
+    (h : fillFirst c u fs = some fs') (ha : AllReq fs) : AllReq fs' := by
+  induction fs generalizing fs' with
+  | nil => simp [fillFirst] at h
+  | cons f fs ih =>
+    simp only [fillFirst] at h
+    by_cases hc : c f = true
+    · simp only [hc, if_true, Option.some.injEq] at h
+      subst h
+      intro g hg
+      rcases List.mem_cons.mp hg with rfl | hg
+      · exact hu f (ha f (List.mem_cons_self ..))
+      · exact ha g (List.mem_cons_of_mem _ hg)
+    · simp only [hc, Bool.false_eq_true, if_false, Option.map_eq_some_iff] at h
+      obtain ⟨t, ht, rfl⟩ := h
+      intro g hg
+      rcases List.mem_cons.mp hg with rfl | hg
+      · exact ha g (List.mem_cons_self ..)
+      · exact ih t ht (fun x hx => ha x (List.mem_cons_of_mem _ hx)) g hg
+
+theorem inboundR_allReq (k : Key) (pck : Nat) (fs : List Frame) (hk : (k.inPort.isSome != k.outPort.isSome) = true)
+    (ha : AllReq fs) : AllReq (inboundR k pck fs) := by
+  unfold inboundR
+  cases hf : fillFirst (matchIn .fixed k) (fun f => { f with inPck := some pck }) fs with
+  | some fs' =>
+    refine fillFirst_allReq _ _ fs fs' ?_ hf ha
+    intro f h
+    simp only [Frame.request] at h ⊢
+    split <;> simp_all
+  | none =>
+    simp only []
+    split
+    · exact ha
+    · rename_i ho
+      intro g hg
+      rcases List.mem_append.mp hg with hg | hg
+      · exact ha g hg
+      · simp only [List.mem_singleton] at hg
+        subst hg
+        cases hi : k.inPort <;> cases hO : k.outPort <;> simp_all [Frame.request]
+
+theorem outboundR_allReq (k : Key) (pck : Nat) (fs : List Frame) (ha : AllReq fs) :
+    AllReq (outboundR k pck fs) := by
+  unfold outboundR
+  cases hf : fillFirst (matchOut .fixed k) (fun f => { f with outPck := some pck }) fs with
+  | some fs' =>
+    refine fillFirst_allReq _ _ fs fs' ?_ hf ha
+    intro f h
+    simp only [Frame.request] at h ⊢
+    split <;> simp_all
+  | none =>
+    simp only []
+    split
+    · exact ha
+    · rename_i hi
+      intro g hg
+      rcases List.mem_append.mp hg with hg | hg
+      · exact ha g hg
+      · simp only [List.mem_singleton] at hg
+        subst hg
+        simp_all [Frame.request]
+
+end Uniflow.Agent
+
+open Uniflow.Agent in
+/-- **Every recorded frame holds its request** (repaired hooks): after any history of hook calls of
+ports installed by `Agent.Load` (exactly one of in / out) and process exits, no frame of any
+process holds only an answer – whatever hook calls were missed, and wherever. -/
+theorem C19.frames_have_requests (es : List Ev) (hw : ∀ e ∈ es, e.wf = true) (p : Nat) :
+    ∀ f ∈ runR St.init es p, f.request.isSome = true := by
+  suffices h : ∀ (a : St), (∀ q, AllReq (a q)) → ∀ q, AllReq (runR a es q) from
+    h St.init (fun q f hf => by simp [St.init] at hf) p
+  induction es with
+  | nil => intro a ha; exact ha
+  | cons e es ih =>
+    intro a ha
+    simp only [runR]
+    apply ih (fun e' h' => hw e' (List.mem_cons_of_mem _ h'))
+    intro q
+    have hwe := hw e (List.mem_cons_self ..)
+    cases e with
+    | inb p' k pck =>
+      simp only [stepR, upd]
+      split
+      · exact inboundR_allReq k pck _ (by simpa [Ev.wf] using hwe) (ha p')
+      · exact ha q
+    | outb p' k pck =>
+      simp only [stepR, upd]
+      split
+      · exact outboundR_allReq k pck _ (ha p')
+      · exact ha q
+    | exit p' =>
+      simp only [stepR, upd]
+      split
+      · intro f hf; simp at hf
+      · exact ha q
+
+open Uniflow.Agent in
+/-- **The repaired agent after an open-hook window.** A history that begins with answers whose
+requests the hooks never saw (`pre`: the packets passed before the hooks were attached) and goes on
+with hook calls among which no answer is skipped, leaves exactly the frames of the history `rest`
+under the old bookkeeping – to which `C19.frame_columns`, `C19.frame_pairs_index` and
+`C19.frame_pairs` apply: every recorded frame pairs request i with answer i of its port. -/
+theorem C19.frames_after_window (pre rest : List Ev) (hpre : ∀ e ∈ pre, e.isAnswer = true)
+    (hrest : admitted St.init rest = true) :
+    runR St.init (pre ++ rest) = run .fixed St.init rest := by
+  rw [runR_append, runR_window pre hpre, runR_admitted rest St.init hrest]
+
+open Uniflow.Agent in
+/-- The frames of every port, exactly (repaired hooks, after a window). -/
+theorem C19.frame_columns_repaired (pre rest : List Ev) (hpre : ∀ e ∈ pre, e.isAnswer = true)
+    (hrest : admitted St.init rest = true) (p : Nat) (k : Key) :
+    col k (runR St.init (pre ++ rest) p) = zipPad (inbs p k rest []) (outbs p k rest []) := by
+  rw [C19.frames_after_window pre rest hpre hrest]
+  exact C19.frame_columns rest p k
+
+open Uniflow.Agent in
+/-- **C19, frames, repaired hooks.** With C01's FIFO contract on the recorded part of the history,
+every completed frame pairs a packet that entered a port with the packet that answered it there –
+also when the first requests of the port passed before the hooks were attached. -/
+theorem C19.frame_pairs_repaired (Answers : Key → Nat → Nat → Prop) (pre rest : List Ev) (p : Nat)
+    (hpre : ∀ e ∈ pre, e.isAnswer = true) (hrest : admitted St.init rest = true)
+    (fifo : ∀ (k : Key) (i x y : Nat), (requests p k rest)[i]? = some x → (answers p k rest)[i]? = some y → Answers k x y)
+    (f : Frame) (x y : Nat) (hf : f ∈ runR St.init (pre ++ rest) p)
+    (hx : f.request = some x) (hy : f.answer = some y) :
+    Answers f.key x y ∧ x ∈ requests p f.key rest ∧ y ∈ answers p f.key rest := by
+  rw [C19.frames_after_window pre rest hpre hrest] at hf
+  exact C19.frame_pairs Answers rest p fifo f x y hf hx hy
+
+namespace Uniflow.Agent
+/-- The open-hook window on the in-port 0 of symbol 5, process 1: request 11 passed unseen, its
+answer 21 reaches the hooks, then requests 12, 13 with answers 22, 23. -/
+def windowPre : List Ev := [.outb 1 ⟨5, some 0, none⟩ 21]
+def windowRest : List Ev :=
+  [ .inb 1 ⟨5, some 0, none⟩ 12, .outb 1 ⟨5, some 0, none⟩ 22, .inb 1 ⟨5, some 0, none⟩ 13, .outb 1 ⟨5, some 0, none⟩ 23 ]
+end Uniflow.Agent
+
+open Uniflow.Agent in
+/-- Non-vacuity, and the defect this repairs: the window history meets the hypotheses; the repaired
+agent holds (12,22) (13,23); the agent before the repair held (12,21) (13,22) (-,23). -/
+theorem C19.frames_after_window_nonvacuous :
+    (∀ e ∈ windowPre, e.isAnswer = true) ∧ admitted St.init windowRest = true ∧
+    runR St.init (windowPre ++ windowRest) 1 =
+      [⟨5, some 0, none, some 12, some 22⟩, ⟨5, some 0, none, some 13, some 23⟩] ∧
+    run .fixed St.init (windowPre ++ windowRest) 1 =
+      [⟨5, some 0, none, some 12, some 21⟩, ⟨5, some 0, none, some 13, some 22⟩, ⟨5, some 0, none, none, some 23⟩] := by
+  refine ⟨by decide, by decide, by decide, by decide⟩
+
 /-! ## transparency -/
 
 open Uniflow.Agent in
@@ -234,13 +464,13 @@ hook calls the machine fired (so the frame theorems apply to the combined run). 
 theorem C19.hooks_transparent_agent {σ ε ω : Type} (F : Flow σ ε ω) (s : σ) (a : St) (e : ε) :
     (F.stepWith agentHook (s, a) e).1.1 = (F.step s e).1 ∧
     (F.stepWith agentHook (s, a) e).2 = (F.step s e).2 ∧
-    (F.stepWith agentHook (s, a) e).1.2 = run .fixed a (F.fires s e) := by
+    (F.stepWith agentHook (s, a) e).1.2 = runR a (F.fires s e) := by
   refine ⟨rfl, rfl, ?_⟩
   simp only [Flow.stepWith, agentHook]
   generalize F.fires s e = cs
   induction cs generalizing a with
   | nil => rfl
-  | cons c cs ih => simp only [List.foldl_cons, run]; exact ih _
+  | cons c cs ih => simp only [List.foldl_cons, runR]; exact ih _
 
 /-! ## release on remove / close
 
